@@ -8,7 +8,7 @@ From hls Require Import Base Float Lex Kinds Types Tags Line Keys Media.
 From hls.Spec Require Import KeySpec.
 From hls Require Import Master.
 From hls.Generated Require Import Tables.
-From hls.Proofs Require Import KeysProof C06 C11 C03 TextLines AttrText TagText TagTextSegment TagTextDateRange MediaText C03Items ParsedBuilt MediaParsedWf FloatAll.
+From hls.Proofs Require Import KeysProof C06 C11 C03 TextLines AttrText TagText TagTextSegment TagTextDateRange MediaText C03Items ParsedBuilt MediaParsedWf FloatAll MediaParsedFloats.
 
 (* for key lists as consecutive segments of a parse have them (each the marker alone or keys of
    pairwise different formats; keys never vanish without METHOD=NONE), the EXT-X-KEY events the
@@ -148,10 +148,34 @@ Print Assumptions C03_parsed_wf.
    client attributes) — proved for all values, see C18.v *)
 Theorem C03_float_hypotheses : (forall ns : N, ns < 1048576 * 1000000000 -> dur_rt ns = true)
   /\ (forall s x, parse_float s = Ok x -> float_rt x = true /\ value_domain (VFloat x) = true).
-Proof. exact (conj dur_rt_small (fun s x H => proj2 (parsed_float_roundtrip s x H))). Qed.
+Proof. exact (conj dur_rt_small (fun s x H => proj2 (parsed_float_domain s x H))). Qed.
 Check C03_float_hypotheses : (forall ns : N, ns < 1048576 * 1000000000 -> dur_rt ns = true)
   /\ (forall s x, parse_float s = Ok x -> float_rt x = true /\ value_domain (VFloat x) = true).
 Print Assumptions C03_float_hypotheses.
+
+(* THE round trip without hypotheses on floats or on well-formedness: every parse result whose durations (EXTINF, DATERANGE
+   DURATION / PLANNED-DURATION) are below 2^20 s and whose unquoted SCTE35-* values are plain (`media_small`: two comparisons and
+   a character test per segment, no reference to the float conversions) is written and read back with the same observable content.
+   The floats of a parse result (TIME-OFFSET, client attributes) need no condition: they come out of the float reader and therefore
+   survive writer and reader (`parsed_media_domain`, threaded through the parser state like the structural invariants) *)
+Theorem C03_roundtrip_parsed : forall s p, parse_media s = Ok p -> media_small p = true ->
+  parse_media (print_media p) = Ok (reread p)
+  /\ mp_target (reread p) = mp_target p /\ mp_mseq (reread p) = mp_mseq p /\ mp_dseq (reread p) = mp_dseq p
+  /\ mp_ptype (reread p) = mp_ptype p /\ mp_iframes (reread p) = mp_iframes p /\ mp_indep (reread p) = mp_indep p
+  /\ mp_start (reread p) = mp_start p /\ mp_endlist (reread p) = mp_endlist p /\ mp_unknown (reread p) = mp_unknown p
+  /\ Forall2 seg_same (mp_segs (reread p)) (mp_segs p).
+Proof. exact parsed_media_roundtrip_small. Qed.
+Check C03_roundtrip_parsed : forall s p, parse_media s = Ok p -> media_small p = true ->
+  parse_media (print_media p) = Ok (reread p)
+  /\ mp_target (reread p) = mp_target p /\ mp_mseq (reread p) = mp_mseq p /\ mp_dseq (reread p) = mp_dseq p
+  /\ mp_ptype (reread p) = mp_ptype p /\ mp_iframes (reread p) = mp_iframes p /\ mp_indep (reread p) = mp_indep p
+  /\ mp_start (reread p) = mp_start p /\ mp_endlist (reread p) = mp_endlist p /\ mp_unknown (reread p) = mp_unknown p
+  /\ Forall2 seg_same (mp_segs (reread p)) (mp_segs p).
+Print Assumptions C03_roundtrip_parsed.
+Theorem C03_parsed_domain : forall s p, parse_media s = Ok p -> media_small p = true -> media_domain p = true.
+Proof. exact parsed_media_domain. Qed.
+Check C03_parsed_domain : forall s p, parse_media s = Ok p -> media_small p = true -> media_domain p = true.
+Print Assumptions C03_parsed_domain.
 
 (* non-vacuity at text level: a parsed playlist with two key formats, a key rotation, METHOD=NONE,
    a map, byte ranges, a date range and fractional durations meets every hypothesis *)
@@ -186,7 +210,7 @@ plain.ts
 Definition c03_raws : list (list xkey) := Eval vm_compute in
   map (fun s => map (fun k => match k with Some d => Some (strip_derived d) | None => None end) (sg_keys s)) (mp_segs c03_p).
 Example C03_text_example :
-  List.length (mp_segs c03_p) = 3%nat /\ media_domain c03_p = true /\ wf_media c03_p = true /\ built_ok c03_p c03_raws
+  List.length (mp_segs c03_p) = 3%nat /\ media_small c03_p = true /\ media_domain c03_p = true /\ wf_media c03_p = true /\ built_ok c03_p c03_raws
   /\ parse_media (print_media c03_p) = Ok (reread c03_p).
 Proof.
   assert (Hb : built_ok c03_p c03_raws).
@@ -198,6 +222,6 @@ Proof.
         right; repeat constructor; simpl; intros; try tauto;
         repeat match goal with H : _ \/ _ |- _ => destruct H end; try tauto;
         match goal with H : Some _ = Some _ |- _ => inversion H; subst; vm_compute; reflexivity end. }
-  split; [reflexivity|]. split; [vm_compute; reflexivity|]. split; [vm_compute; reflexivity|]. split; [exact Hb|].
+  split; [reflexivity|]. split; [vm_compute; reflexivity|]. split; [vm_compute; reflexivity|]. split; [vm_compute; reflexivity|]. split; [exact Hb|].
   apply (media_text_roundtrip c03_p c03_raws); [vm_compute; reflexivity | exact Hb].
 Qed.
